@@ -390,12 +390,8 @@ func checkAttrLookupShape(p *Program, r *Report, pl *Policy) {
 				if l2, t2, ok := policyLookup(a.E.Val, 1); ok && t2 == "elementContentSanitizationContext" && l2.Index == elemP {
 					return true
 				}
-				if l3, ok := a.E.Val.(*ssa.Lookup); ok && !l3.CommaOk && l3.Index == elemP {
-					if u, ok := l3.X.(*ssa.UnOp); ok {
-						if g, ok := u.X.(*ssa.Global); ok && cname(g) == "allowedVoidElements" {
-							return true
-						}
-					}
+				if g, want, key, ok := memberTestOf(a.E.Val, 0); ok && want == nil && key == elemP && cname(g) == "allowedVoidElements" {
+					return true
 				}
 				return false
 			}, 0)
